@@ -45,6 +45,11 @@ func newAccessListTx(tx *ethtypes.Transaction) (*AccessListTx, error) {
 		txData.Accesses = NewAccessList(&al)
 	}
 
+	// the chain id is an arbitrary precision integer on the wire
+	if _, err := types.SafeNewIntFromBigInt(tx.ChainId()); err != nil {
+		return nil, err
+	}
+
 	txData.SetSignatureValues(tx.ChainId(), v, r, s)
 	return txData, nil
 }
